@@ -783,8 +783,13 @@ class TextXMetaModel(DebugPrinter):
         model = None
         callback = pre_ref_resolution_callback
 
+        # Models cached by earlier loads (global repo). They must survive
+        # if this load fails.
+        cached_before = []
+
         if hasattr(self, "_tx_model_repository"):
             # metamodel has a global repo
+            cached_before = list(self._tx_model_repository.all_models)
             if not callback:
 
                 def _pre_ref_resolution_callback(other_model):
@@ -835,9 +840,16 @@ class TextXMetaModel(DebugPrinter):
                 remove_models_from_repositories,
             )
 
-            models = get_included_models(model)
-            remove_models_from_repositories(models, models)
-            for m in models:
+            models = [
+                m for m in get_included_models(model) if hasattr(m, "_tx_metamodel")
+            ]
+            # Only the models loaded by this call are dropped. Models
+            # cached by earlier successful loads stay.
+            loaded_here = [
+                m for m in models if not any(m is c for c in cached_before)
+            ]
+            remove_models_from_repositories(models, loaded_here)
+            for m in loaded_here:
                 _abort_model_construction(m)
             raise
 
